@@ -549,7 +549,13 @@ func runCase(r *common.Run, addrs []int, sched []string, class string) {
 	for _, a := range sched {
 		x.act(a)
 	}
-	obs := x.epilogue()
+	var obs string
+	if len(x.problems) > 0 {
+		r.Hist["problem"]++
+		obs = "aborted"
+	} else {
+		obs = x.epilogue()
+	}
 	if len(x.problems) > 0 {
 		obs += " PROBLEM:" + strings.ReplaceAll(strings.Join(x.problems, ";"), " ", "_")
 	}
@@ -665,7 +671,7 @@ func Run(r *common.Run) error {
 		runCase(r, parseAddrs(c.addrs), strings.Split(c.sched, ","), "corpus")
 	}
 	nR := r.Pick(1200, 20000)
-	for n := 0; n < nR && len(r.Failures) < 80; n++ {
+	for n := 0; n < nR && len(r.Failures) < 80 && r.Hist["problem"] < 25; n++ {
 		r.Mark("case random %d", n)
 		k := 1 + r.Rnd.Intn(3)
 		addrs := make([]int, k)
